@@ -1,6 +1,7 @@
 #!/usr/bin/env python3
 """Evaluate behaviour-preserving refactorings (written by independent sub-agents) against the proof units:
-every unit should keep all its obligations (no false alarm).  Usage: tools_refactor.py /tmp/ref  -> seeded/REFACTORINGS.json"""
+every unit should keep all its obligations (no false alarm).  Usage: tools_refactor.py /tmp/ref  -> seeded/REFACTORINGS.json
+tools_refactor.py --stored  re-evaluates the patches kept in seeded/refactorings/ (R*: sub-agents, H*: hand-made, see REFACTORINGS.md)."""
 import glob, json, os, subprocess, sys, tempfile
 
 VERIF = os.path.dirname(os.path.abspath(__file__))
@@ -16,8 +17,10 @@ def main(root):
     os.rmdir(wt)
     assert sh('git -C /repo worktree add --detach %s HEAD' % wt).returncode == 0
     try:
-        for diff in sorted(glob.glob(os.path.join(root, 'R*', 'deliver', 'R*.diff'))):
-            rid = '%s-%s' % (diff.split('/')[-3], os.path.basename(diff)[:-5])
+        stored = root == '--stored'
+        diffs = glob.glob(os.path.join(VERIF, 'seeded', 'refactorings', '*.diff')) if stored else glob.glob(os.path.join(root, 'R*', 'deliver', 'R*.diff'))
+        for diff in sorted(diffs):
+            rid = os.path.basename(diff)[:-5] if stored else '%s-%s' % (diff.split('/')[-3], os.path.basename(diff)[:-5])
             r = sh('git apply %s' % diff, cwd=wt)
             if r.returncode != 0:
                 out[rid] = {'error': 'patch does not apply: ' + r.stderr[-200:]}
@@ -31,11 +34,12 @@ def main(root):
                 for line in r.stdout.splitlines():
                     if line.startswith(' '):
                         continue
-                    if ' bad=0 ' not in line or 'errors=[]' not in line:
+                    if ' bad=0 ' not in line or 'errors=[]' not in line or 'False' in line.split('probes=')[-1]:
                         bad.append(line[:260])
                 import shutil
                 os.makedirs(os.path.join(VERIF, 'seeded', 'refactorings'), exist_ok=True)
-                shutil.copy(diff, os.path.join(VERIF, 'seeded', 'refactorings', rid + '.diff'))
+                if not stored:
+                    shutil.copy(diff, os.path.join(VERIF, 'seeded', 'refactorings', rid + '.diff'))
                 out[rid] = {'files': files, 'tests': t.stdout.strip()[-60:], 'units_alarmed': bad}
                 print(rid, files, 'ALARM' if bad else 'quiet', len(bad))
                 for b in bad[:3]:
